@@ -159,6 +159,78 @@ pub fn threads() -> usize {
         })
 }
 
+// ---------------------------------------------------------------------------------------------
+// in-flight table: which run index every worker is executing right now and since when. The
+// supervising parent process reads it when the child dies from a signal (stack overflow, abort) or
+// stops making progress (a simulated thread blocked the whole process on a lock that is not under
+// the scheduler's control, or an endless computation), and then finds the culprit by re-running the
+// in-flight indices one by one.
+
+pub const INFLIGHT_SLOTS: usize = 64;
+pub const NO_INDEX: u64 = u64::MAX;
+
+pub struct Inflight {
+    file: Option<std::fs::File>,
+    slot: AtomicU64,
+}
+
+impl Inflight {
+    pub fn from_env() -> Inflight {
+        let file = std::env::var("VSIM_INFLIGHT").ok().and_then(|p| std::fs::OpenOptions::new().write(true).open(p).ok());
+        Inflight { file, slot: AtomicU64::new(0) }
+    }
+    pub fn claim_slot(&self) -> usize {
+        (self.slot.fetch_add(1, Ordering::Relaxed) as usize) % INFLIGHT_SLOTS
+    }
+    pub fn set(&self, slot: usize, index: u64) {
+        use std::os::unix::fs::FileExt;
+        if let Some(f) = &self.file {
+            let now = std::time::SystemTime::now().duration_since(std::time::UNIX_EPOCH).map(|d| d.as_millis() as u64).unwrap_or(0);
+            let mut b = [0u8; 16];
+            b[..8].copy_from_slice(&index.to_le_bytes());
+            b[8..].copy_from_slice(&now.to_le_bytes());
+            let _ = f.write_at(&b, (slot * 16) as u64);
+        }
+    }
+    pub fn progress(&self, done: u64) {
+        use std::os::unix::fs::FileExt;
+        if let Some(f) = &self.file {
+            let _ = f.write_at(&done.to_le_bytes(), (INFLIGHT_SLOTS * 16) as u64);
+        }
+    }
+}
+
+pub fn inflight_new_file(path: &std::path::Path) -> std::io::Result<()> {
+    let mut v = Vec::new();
+    for _ in 0..INFLIGHT_SLOTS {
+        v.extend_from_slice(&NO_INDEX.to_le_bytes());
+        v.extend_from_slice(&0u64.to_le_bytes());
+    }
+    v.extend_from_slice(&0u64.to_le_bytes());
+    std::fs::write(path, v)
+}
+
+/// (slot records: (index, start ms)), runs completed
+pub fn inflight_read(path: &std::path::Path) -> (Vec<(u64, u64)>, u64) {
+    let b = std::fs::read(path).unwrap_or_default();
+    let mut v = Vec::new();
+    for s in 0..INFLIGHT_SLOTS {
+        if b.len() >= (s + 1) * 16 {
+            let i = u64::from_le_bytes(b[s * 16..s * 16 + 8].try_into().unwrap());
+            let t = u64::from_le_bytes(b[s * 16 + 8..s * 16 + 16].try_into().unwrap());
+            if i != NO_INDEX {
+                v.push((i, t));
+            }
+        }
+    }
+    let done = if b.len() >= INFLIGHT_SLOTS * 16 + 8 {
+        u64::from_le_bytes(b[INFLIGHT_SLOTS * 16..INFLIGHT_SLOTS * 16 + 8].try_into().unwrap())
+    } else {
+        0
+    };
+    (v, done)
+}
+
 /// Run `n` indexed cases on all cores. `f(index)` must be a pure function of the index (and the
 /// base seed captured by the closure) so the batch is reproducible at any worker count.
 pub fn run_batch<F>(prop: &'static str, n: u64, keep_samples: usize, f: F) -> Agg
@@ -166,6 +238,8 @@ where
     F: Fn(u64) -> RunResult + Sync,
 {
     let next = AtomicU64::new(0);
+    let done = AtomicU64::new(0);
+    let inflight = Inflight::from_env();
     let total = Mutex::new(Agg::default());
     let nthreads = threads().max(1);
     // std::thread::scope would do; plain spawn keeps the big-stack option open
@@ -174,12 +248,19 @@ where
     let worker = || {
         let mut local = Agg::default();
         let mut retire = false;
+        let slot = inflight.claim_slot();
         loop {
             let i = next.fetch_add(1, Ordering::Relaxed);
             if i >= n {
                 break;
             }
+            inflight.set(slot, i);
             let r = f(i);
+            inflight.set(slot, NO_INDEX);
+            let d = done.fetch_add(1, Ordering::Relaxed) + 1;
+            if d % 256 == 0 {
+                inflight.progress(d);
+            }
             local.absorb(prop, i, r, keep_samples);
             if crate::sched::take_retire() {
                 retire = true;
